@@ -110,3 +110,27 @@ def count_cases(trace_path):
                 ok += o["res"] == "ok"
                 err += o["res"] == "err"
     return n, ok, err
+
+
+def count_params(trace_path):
+    n = ok = 0
+    for ln in open(trace_path):
+        if '"pouts"' in ln:
+            for po in json.loads(ln).get("pouts", []):
+                n += 1
+                ok += po["out"]["res"] == "ok"
+    return n, ok
+
+
+def corrupt_pout(ev, rng):
+    """binding self-test for C35: change one answered parameterised outcome"""
+    for po in ev.get("pouts", []):
+        o = po["out"]
+        if o.get("res") == "ok":
+            if o["rows"]:
+                o["rows"][0]["m"] += 1
+            else:
+                o["rows"].append({"r": [{"k": "I", "n": 7, "s": ""} for _ in o["cols"]], "m": 1})
+            ev["_corrupted"] = "pouts/%s/rows/0" % po["pm"]
+            return True
+    return False
